@@ -244,6 +244,31 @@ impl<C: MlsConfig, E: ExternalMlsConfig + Clone> World<C, E> {
         let exp = g.export_secret(b"verif", b"ctx", 32).map(|s| it.id(s.as_bytes())).ok();
         let snap = g.verif_snapshot().ok();
         let (idx, privs) = g.verif_private_keys();
+        // C09: does every stored private key open what is sealed to the public key of its node?
+        let priv_ok: Vec<Value> = {
+            use mls_rs_core::crypto::{CipherSuiteProvider, CryptoProvider, HpkePublicKey, HpkeSecretKey};
+            let cs = mls_rs_crypto_openssl::OpensslCryptoProvider::default().cipher_suite_provider(g.cipher_suite());
+            let nodes = tree.nodes();
+            let leaf_count = ((nodes.len() as u32) / 2 + 1).next_power_of_two();
+            let path = mls_rs::verif::tree_math::direct_copath(2 * idx, leaf_count);
+            privs.iter().enumerate().map(|(i, k)| {
+                let Some(k) = k else { return json!(null) };
+                let ni = if i == 0 { Some((2 * idx) as usize) } else { path.get(i - 1).map(|p| p.0 as usize) };
+                let Some(ni) = ni else { return json!("beyond_path") };
+                let pk: Option<HpkePublicKey> = match nodes.get(ni) {
+                    Some(Some(Node::Leaf(l))) => Some(l.public_key.clone()),
+                    Some(Some(Node::Parent(p))) => Some(p.public_key.clone()),
+                    _ => None,
+                };
+                let Some(pk) = pk else { return json!("blank") };
+                let Some(cs) = cs.as_ref() else { return json!("nosuite") };
+                let sk = HpkeSecretKey::from(k.clone());
+                match cs.hpke_seal(&pk, b"verif", None, b"probe") {
+                    Ok(ct) => json!(matches!(cs.hpke_open(&ct, &sk, &pk, b"verif", None), Ok(pt) if &*pt == b"probe")),
+                    Err(_) => json!("seal_error"),
+                }
+            }).collect()
+        };
         let gid = g.group_id().to_vec();
         let epoch = g.current_epoch();
         let stored = m.gstore.probe_epochs(&gid, epoch + 1);
@@ -263,6 +288,7 @@ impl<C: MlsConfig, E: ExternalMlsConfig + Clone> World<C, E> {
             "exp": exp,
             "idx": idx,
             "priv": privs.iter().map(|k| k.as_ref().map(|k| it.id(k))).collect::<Vec<_>>(),
+            "priv_ok": priv_ok,
             "pending": g.has_pending_commit(),
             "reinit": g.verif_has_pending_reinit(),
             "nprops": g.get_cached_proposals().len(),
@@ -361,7 +387,8 @@ impl<C: MlsConfig, E: ExternalMlsConfig + Clone> World<C, E> {
                 let m = self.members.get_mut(&who).ok_or("no such member")?;
                 let kp = mls!(m.client.generate_key_package_message(ExtensionList::new(), ExtensionList::new(), None));
                 self.msgs.insert(id, mls!(kp.to_bytes()));
-                Ok(json!({}))
+                let init = kp.clone().into_key_package().map(|k| self.intern.id(&k.hpke_init_key));
+                Ok(json!({"init": init}))
             }
             "propose" => {
                 let pk = op["kind"].as_str().unwrap_or("");
@@ -572,6 +599,11 @@ impl<C: MlsConfig, E: ExternalMlsConfig + Clone> World<C, E> {
                 }
                 if let Some(r) = op["remove"].as_u64() {
                     b = b.with_removal(r as u32);
+                }
+                if op["remove_self"].as_bool().unwrap_or(false) {
+                    if let Some(old) = m.group.as_ref() {
+                        b = b.with_removal(old.current_member_index());
+                    }
                 }
                 let (g, msg) = mls!(b.build(gi));
                 m.group = Some(g);
